@@ -1,6 +1,7 @@
 import Thanos.Model.Hashring
 import Thanos.Lemmas.Hashring
 import Thanos.Lemmas.HashringBalance
+import Thanos.Lemmas.HashringWalk
 /-
   The ketama ring does not depend on the order of the endpoint list (C18), up to the renaming
   of endpoint indices that the reordering induces:
@@ -384,5 +385,129 @@ theorem mkRing_permute (eps : List Ep) (perm : List Nat) (h : IsPermOf perm eps.
   intro a b ha hb hab hba
   simp only [hashLe, decide_eq_true_eq] at hab hba
   exact hash_inj_of_noTies hnt (List.mem_mergeSort.mp (hp.mem_iff.mp ha)) (List.mem_mergeSort.mp hb) (by omega)
+
+end Thanos.Hashring
+
+namespace Thanos.Hashring
+
+/-! ### removing one endpoint from the endpoint list (C20) -/
+
+theorem range_filterMap_getElem? {α : Type} : ∀ (l : List α), (List.range l.length).filterMap (l[·]?) = l
+  | [] => rfl
+  | a :: l => by
+    simp only [List.length_cons, List.range_succ_eq_map, List.filterMap_cons, List.getElem?_cons_zero,
+      List.filterMap_map]
+    congr 1
+    have := range_filterMap_getElem? l
+    simpa [Function.comp_def] using this
+
+/-- the positions of an endpoint list without position `pos` -/
+def others (n pos : Nat) : List Nat := (List.range n).filter (· != pos)
+
+theorem eraseIdx_eq_filterMap {α : Type} : ∀ (l : List α) (pos : Nat),
+    l.eraseIdx pos = (others l.length pos).filterMap (l[·]?)
+  | [], _ => by simp [others]
+  | a :: l, 0 => by
+    have hf : others (l.length + 1) 0 = (List.range l.length).map Nat.succ := by
+      simp only [others, List.range_succ_eq_map, List.filter_cons, List.filter_map]
+      have : (List.range l.length).filter ((fun x => x != 0) ∘ Nat.succ) = List.range l.length := by
+        rw [List.filter_eq_self]; intro k _; simp
+      simp [this]
+    simp only [List.eraseIdx_cons_zero, List.length_cons, hf, List.filterMap_map]
+    have h := range_filterMap_getElem? l
+    simpa [Function.comp_def] using h.symm
+  | a :: l, pos + 1 => by
+    have ih := eraseIdx_eq_filterMap l pos
+    have hf : others (l.length + 1) (pos + 1) = 0 :: (others l.length pos).map Nat.succ := by
+      simp only [others, List.range_succ_eq_map, List.filter_cons, List.filter_map]
+      have : (List.range l.length).filter ((fun x => x != pos + 1) ∘ Nat.succ) = (List.range l.length).filter (fun x => x != pos) := by
+        apply List.filter_congr; intro k _; simp
+      simp [this]
+    simp only [List.eraseIdx_cons_succ, List.length_cons, hf, List.filterMap_cons, List.getElem?_cons_zero,
+      List.filterMap_map, ih]
+    congr 1
+
+theorem others_lt {n pos i : Nat} (h : i ∈ others n pos) : i < n ∧ i ≠ pos := by
+  simp only [others, List.mem_filter, List.mem_range, bne_iff_ne, ne_eq] at h
+  exact h
+
+/-- old position ↦ position after the insertion at `pos` -/
+def up (n pos : Nat) (j : Nat) : Nat := ((others n pos)[j]?).getD 0
+
+theorem blockAt_ep {eps : List Ep} {i : Nat} {s : Sec} (h : s ∈ blockAt eps i) : s.ep = i := by
+  unfold blockAt at h
+  cases he : eps[i]? with
+  | none => simp [he] at h
+  | some e => simp only [he, List.mem_map] at h; obtain ⟨_, _, rfl⟩ := h; rfl
+
+theorem filter_flatMap_blockAt (eps : List Ep) (pos : Nat) : ∀ (l : List Nat),
+    (l.flatMap (blockAt eps)).filter (fun s => s.ep != pos) = (l.filter (· != pos)).flatMap (blockAt eps)
+  | [] => rfl
+  | i :: l => by
+    simp only [List.flatMap_cons, List.filter_append, List.filter_cons]
+    rw [filter_flatMap_blockAt eps pos l]
+    by_cases h : i = pos
+    · subst h
+      have : (blockAt eps i).filter (fun s => s.ep != i) = [] := by
+        rw [List.filter_eq_nil_iff]; intro s hs; simp [blockAt_ep hs]
+      rw [this]; simp
+    · have : (blockAt eps i).filter (fun s => s.ep != pos) = blockAt eps i := by
+        rw [List.filter_eq_self]; intro s hs; simp [blockAt_ep hs, h]
+      simp [this, h]
+
+/-- the sections of the list without endpoint `pos`, in the numbering of the full list, are the
+    sections of the full list without those of `pos` -/
+theorem sectionsFrom_eraseIdx (eps : List Ep) (pos : Nat) :
+    (sectionsFrom 0 (eps.eraseIdx pos)).map (ren (up eps.length pos)) = without pos (sectionsFrom 0 eps) := by
+  rw [eraseIdx_eq_filterMap, sectionsFrom_zero_eq eps, without, filter_flatMap_blockAt]
+  have := sectionsFrom_filterMap eps (others eps.length pos) 0 (fun i hi => (others_lt hi).1)
+  simp only [Nat.sub_zero] at this
+  exact this
+
+theorem noTies_sublist_hash {l l' : List Sec} (h : (l.map (·.hash)).Nodup) (hs : l'.Sublist l) : (l'.map (·.hash)).Nodup :=
+  h.sublist (hs.map _)
+
+/-- **the ring before the addition is the ring after it without the new endpoint's sections**
+    (in the numbering of the longer list; no hash ties) -/
+theorem mkRing_eraseIdx (eps : List Ep) (pos : Nat) (hnt : NoTies eps) :
+    (mkRing (eps.eraseIdx pos)).map (ren (up eps.length pos)) = without pos (mkRing eps) := by
+  have hsec := sectionsFrom_eraseIdx eps pos
+  have hp : ((mkRing (eps.eraseIdx pos)).map (ren (up eps.length pos))).Perm (without pos (mkRing eps)) := by
+    unfold mkRing without
+    have h1 := ((List.mergeSort_perm (sectionsFrom 0 (eps.eraseIdx pos)) hashLe).map (ren (up eps.length pos)))
+    rw [hsec] at h1
+    exact h1.trans ((List.mergeSort_perm (sectionsFrom 0 eps) hashLe).filter _).symm
+  have hp1 : ((mkRing (eps.eraseIdx pos)).map (ren (up eps.length pos))).Pairwise (fun a b => hashLe a b = true) := by
+    rw [List.pairwise_map]
+    exact (pairwise_mkRing _).imp (fun h => h)
+  have hp2 : (without pos (mkRing eps)).Pairwise (fun a b => hashLe a b = true) :=
+    (pairwise_mkRing eps).filter _
+  apply List.Perm.eq_of_pairwise (le := fun a b => hashLe a b = true) _ hp1 hp2 hp
+  intro a b ha hb hab hba
+  simp only [hashLe, decide_eq_true_eq] at hab hba
+  have ha' : a ∈ sectionsFrom 0 eps := List.mem_mergeSort.mp (List.mem_filter.mp (hp.mem_iff.mp ha)).1
+  have hb' : b ∈ sectionsFrom 0 eps := List.mem_mergeSort.mp (List.mem_filter.mp hb).1
+  exact hash_inj_of_noTies hnt ha' hb' (by omega)
+
+theorem up_inj (n pos : Nat) {i j : Nat} (hi : i < (others n pos).length) (hj : j < (others n pos).length)
+    (h : up n pos i = up n pos j) : i = j := by
+  have hnd : (others n pos).Nodup := (List.nodup_range).filter _
+  simp only [up, List.getElem?_eq_getElem hi, List.getElem?_eq_getElem hj, Option.getD_some] at h
+  exact (List.getElem_inj hnd).mp h
+
+theorem searchSuffix_ren (f : Nat → Nat) (v : Nat) (ring : List Sec) :
+    searchSuffix v (ring.map (ren f)) = (searchSuffix v ring).map (ren f) := by
+  unfold searchSuffix
+  have : (ring.map (ren f)).dropWhile (fun s => decide (s.hash < v)) =
+      (ring.dropWhile (fun s => decide (s.hash < v))).map (ren f) := by
+    induction ring with
+    | nil => rfl
+    | cons a r ih =>
+      simp only [List.map_cons, List.dropWhile_cons, ren_hash]
+      by_cases h : a.hash < v <;> simp [h, ih]
+  rw [this]
+  cases ring.dropWhile (fun s => decide (s.hash < v)) with
+  | nil => rfl
+  | cons a l => rfl
 
 end Thanos.Hashring
